@@ -30,6 +30,19 @@ Theorem C14_conservation_log : forall b m nbins xs,
 Proof. exact conservation_log. Qed.
 Print Assumptions C14_conservation_log.
 
+(* after ANY sequence of Adds every counter (under, over, each bin) holds exactly the number of
+   added values its slot selects; with the *_iff_edges theorems below: bin i counts the values
+   with BinToValue(i) <= x < BinToValue(i+1) *)
+Theorem C14_counts_after_history_linear : forall mn mx nbins xs s, valid_slot nbins s ->
+  slot_count (lin_run mn mx nbins xs) s = Some (count_slot (lin_slot mn mx nbins) s xs).
+Proof. exact lin_run_counts. Qed.
+Print Assumptions C14_counts_after_history_linear.
+
+Theorem C14_counts_after_history_log : forall b m nbins xs s, valid_slot nbins s ->
+  slot_count (log_run b m nbins xs) s = Some (count_slot (log_slot b m nbins) s xs).
+Proof. exact log_run_counts. Qed.
+Print Assumptions C14_counts_after_history_log.
+
 (* ---- LinearHist: x lands in bin i exactly when BinToValue(i) <= x < BinToValue(i+1) ---- *)
 (* (false for conversion by truncation, D7: then x just below BinToValue(0) lands in bin 0) *)
 Theorem C14_lin_bin_iff_edges : forall mn mx nbins, mn < mx -> (0 < nbins)%nat -> forall x i,
